@@ -74,7 +74,8 @@ def build_input(summary, seed, tier):
             b = dict(byname[a])
             b["pos"] = [[k, (v + 3 if k == "i" and isinstance(v, int) and byname[a]["pos"][n][1] not in (512,) else v)] for n, (k, v) in enumerate(b["pos"])]
             cold.append(dict(a=byname[a], b=b, stride=1 if tier == "quick" else 1))
-    return dict(histories=hists, pairs=pairs, cold_pairs=cold, seed=seed, n_decode=3 if tier == "quick" else 12)
+    return dict(histories=hists, pairs=pairs, cold_pairs=cold, seed=seed, n_decode=3 if tier == "quick" else 12,
+                n_param_hist=4 if tier == "quick" else 40)
 
 
 def run_impl(inp):
@@ -110,6 +111,10 @@ def findings(inp, res):
                              observed="first use of %s in the process: thread A runs %d lines, thread B builds its command completely, A resumes: %s instead of %s" % (
                                  p["a"]["cls"], r["bad"]["a_lines"], str(r["bad"]["interleaved"])[:200], str(r["bad"]["alone"])[:200])))
             break
+    ph = res.get("param_history")
+    if ph:
+        hits.append(dict(kind="c09-param-history", id="parameter-list command in a history changes what another class decodes / encodes",
+                         seed=inp.get("seed"), n_param_hist=inp.get("n_param_hist"), case=ph["case"], corrupted=ph["corrupted"], observed=ph["what"]))
     for m in res["mutation"]:
         if m["changed"]:
             hits.append(dict(kind="c09-mutation", id="%s: the caller's segment descriptor dictionaries are modified" % m["name"], name=m["name"],
@@ -144,6 +149,10 @@ def replay(obj):
         inp = build_input(summary, int(os.environ.get("VERIF_SEED", "20260929")), "quick")
         res = run_impl(dict(histories=inp["histories"][:200], pairs=[]))
         return not res.get("cdb_fresh"), ("still: %s" % res["cdb_fresh"] if res.get("cdb_fresh") else "results are fresh objects")
+    if obj.get("kind") == "c09-param-history":
+        res = run_impl(dict(histories=[], pairs=[], seed=obj.get("seed") or 0, n_param_hist=obj.get("n_param_hist") or 4))
+        ph = res.get("param_history")
+        return ph is None, ("still: %s" % ph["what"][:300] if ph else "other classes decode / encode as before")
     if obj.get("kind") == "c09-repeat":
         rp = vlib.run_impl("corr/params_impl.py", dict(seed=obj["seed"], n_each=obj["n_each"]), timeout=900)
         w = rp[obj["index"]].get("why")
